@@ -648,10 +648,20 @@ var c13RepeatOpts = modelOpts{
 // "-" elision a "+" elision stands for must not depend on where the lines of
 // the pattern are broken.
 var c13SeveralDots = []struct {
-	Holes map[string]string
-	Body  []c13Line
-	File  string
+	Holes  map[string]string
+	Body   []c13Line
+	File   string
+	Second []c13Line // a second change, if any
 }{
+	{
+		// The first change has a block nested in a block on unchanged
+		// lines (written with a blank or as identical pairs); the second
+		// one applies in both blocks.
+		Holes:  map[string]string{},
+		Body:   []c13Line{{Op: ' ', Text: "if sdok {"}, {Op: '-', Text: "  sda()"}, {Op: '+', Text: "  sdb()"}, {Op: ' ', Text: "  sdx()"}, {Op: ' ', Text: "  {"}, {Op: ' ', Text: "    sdx()"}, {Op: ' ', Text: "  }"}, {Op: ' ', Text: "}"}},
+		File:   "package sd\n\nfunc f(sdok bool) {\n\tif sdok {\n\t\tsda()\n\t\tsdx()\n\t\t{\n\t\t\tsdx()\n\t\t}\n\t}\n}\n",
+		Second: []c13Line{{Op: '-', Text: "sdx()"}, {Op: '+', Text: "sdy()"}, {Op: ' ', Text: "..."}},
+	},
 	{
 		Holes: map[string]string{"x": "identifier"},
 		Body:  []c13Line{{Op: '-', Text: "sdfoo(..., x, ...)"}, {Op: '+', Text: "sdbar(..., x, ...)"}},
@@ -704,6 +714,9 @@ func TestC13(t *testing.T) {
 			sd := rapid.SampledFrom(c13SeveralDots).Draw(rt, "severalDotsChange")
 			cs = &c13Case{File: sd.File}
 			cs.Changes = append(cs.Changes, c13Change{Desc: []string{"Several elisions."}, Holes: sd.Holes, Body: sd.Body})
+			if sd.Second != nil {
+				cs.Changes = append(cs.Changes, c13Change{Desc: []string{"Follow-up."}, Holes: map[string]string{}, Body: sd.Second})
+			}
 		} else {
 			mcs, why := genModelCase(rt, opts)
 			if mcs == nil {
@@ -713,7 +726,7 @@ func TestC13(t *testing.T) {
 			cs = &c13Case{File: mcs.Host}
 			cs.Changes = append(cs.Changes, c13FromPatch(mcs.Patch, mcs.Spec.Holes))
 		}
-		if rapid.IntRange(0, 3).Draw(rt, "second") == 0 {
+		if len(cs.Changes) == 1 && rapid.IntRange(0, 3).Draw(rt, "second") == 0 {
 			// a second, simple change after the first one
 			cs.Changes = append(cs.Changes, c13Change{
 				Desc:  []string{"Second change."},
